@@ -60,6 +60,12 @@ CHECKS = {
         "reference verdict on the completion, for each of ~70 constraints; plus monotonicity of all/any/not/and/or under refinement of UNKNOWN on symbolic truth values.",
    note="Trusted: checks/refsem.py. [decoder]. Known findings: numeric-quantifier strategy on open trees; unbound nested nonterminals of match expressions.",
    design="§3 C06"),
+ "C08": dict(level="translation_validation", technique="translation validation: SMT (z3) equivalence of the first-order encodings of parse_isla(simplified text) and parse_isla(hand-expanded core text) over all tree structures",
+   text="Translation validation: ~80 (simplified, hand-expanded core) pairs generated from paired templates that follow the 'Simplified Syntax' section rule by rule (omitted `in start` / names, "
+        "free-nonterminal closure over 18 body shapes, XPath child/index (positions 1..12)/descendant axes and chains, prefix/infix SMT with precedence and negative literals, implies/iff/xor); "
+        "both sides are parsed by the real parser and z3 proves them equivalent for all trees; a rejected documented form is a violation.",
+   note="Trusted: the hand-expanded core forms, FOL encoder, z3. Known findings: closure pushed into conjunctions (differs only on empty quantifier domains); descendant axis under an existential rejected.",
+   design="§3 C08"),
 }
 NOT_APPLICABLE = {
  "C21": "needs end-to-end solve() on the shipped formalizations plus external validators (docutils, XML parser): the solver loop is a heap algorithm around Z3 calls that no engine here can encode, and the validators are not solver objects",
